@@ -4,9 +4,11 @@ import (
 	"fmt"
 	"io"
 	"os"
+	"os/exec"
 	"path/filepath"
 	"strings"
 	"sync"
+	"syscall"
 	"testing"
 
 	"pgregory.net/rapid"
@@ -39,6 +41,18 @@ type recorder struct {
 	listing  map[string]bool // directory entries at the last (durable) directory fsync
 	pendList map[string]bool
 	everSync bool
+	ino      map[string]uint64
+}
+
+func inode(path string) uint64 {
+	fi, err := os.Stat(path)
+	if err != nil {
+		return 0
+	}
+	if st, ok := fi.Sys().(*syscall.Stat_t); ok {
+		return st.Ino
+	}
+	return 0
 }
 
 func newRecorder(cs ChildSpec) *recorder {
@@ -87,6 +101,30 @@ func (r *recorder) event(op, path string) {
 		name := filepath.Base(path)
 		if copyFile(path, filepath.Join(r.shadow, name+".pending")) == nil {
 			r.pending[name] = true
+			if r.ino == nil {
+				r.ino = map[string]uint64{}
+			}
+			r.ino[name] = inode(path) // names are reused (NNNNN.mem after a re-open): a snapshot belongs to one inode
+		}
+	case "rename":
+		// MANIFEST-REWRITE was written and fsynced, then renamed over MANIFEST: the synced bytes
+		// now live under the new name (whether the rename itself is durable is the directory
+		// model's business, see the variants).
+		if filepath.Base(path) == "MANIFEST" {
+			for _, suffix := range []string{"", ".pending"} {
+				src := filepath.Join(r.shadow, "MANIFEST-REWRITE"+suffix)
+				if _, err := os.Stat(src); err == nil {
+					os.Rename(src, filepath.Join(r.shadow, "MANIFEST"+suffix))
+				}
+			}
+			if r.durable["MANIFEST-REWRITE"] {
+				r.durable["MANIFEST"] = true
+				delete(r.durable, "MANIFEST-REWRITE")
+			}
+			if r.pending["MANIFEST-REWRITE"] {
+				r.pending["MANIFEST"] = true
+				delete(r.pending, "MANIFEST-REWRITE")
+			}
 		}
 	case "syncdir":
 		if filepath.Clean(path) != filepath.Clean(r.cs.Dir) {
@@ -116,6 +154,11 @@ func (r *recorder) materialise() {
 			now[e.Name()] = fi.Size()
 		}
 	}
+	if _, gone := now["MANIFEST-REWRITE"]; !gone && r.durable["MANIFEST-REWRITE"] && !r.durable["MANIFEST"] {
+		// the rename already happened but its hook has not been reached yet
+		os.Rename(filepath.Join(r.shadow, "MANIFEST-REWRITE"), filepath.Join(r.shadow, "MANIFEST"))
+		r.durable["MANIFEST"] = true
+	}
 	exists := map[string]bool{}
 	if r.cs.Variant == 2 && r.everSync {
 		for f := range r.listing {
@@ -136,7 +179,7 @@ func (r *recorder) materialise() {
 		switch {
 		case alwaysDurable(f):
 			copyFile(filepath.Join(r.cs.Dir, f), dst)
-		case r.durable[f]:
+		case r.durable[f] && (f == "MANIFEST" || r.ino[f] == inode(filepath.Join(r.cs.Dir, f)) || now[f] == 0 && r.cs.Variant == 2):
 			copyFile(filepath.Join(r.shadow, f), dst)
 		case strings.HasSuffix(f, ".pending"):
 		default:
@@ -157,7 +200,11 @@ func (r *recorder) materialise() {
 func powerLossCampaign(p Prog, all bool, variants []int) (crashStats, error) {
 	cs := crashStats{sites: map[string]int{}}
 	base := core.Scratch("ploss")
-	defer os.RemoveAll(base)
+	if os.Getenv("VERIF_KEEP") != "" {
+		fmt.Println("KEEPING", base)
+	} else {
+		defer os.RemoveAll(base)
+	}
 	dry := ChildSpec{Prog: p, Dir: filepath.Join(base, "dry"), AckPath: filepath.Join(base, "dry.ack"), PowerLoss: true, ImageDir: filepath.Join(base, "dry.img")}
 	os.MkdirAll(dry.Dir, 0o755)
 	exit, out, err := runChild(dry)
@@ -175,13 +222,7 @@ func powerLossCampaign(p Prog, all bool, variants []int) (crashStats, error) {
 			pts = append(pts, i)
 		}
 	} else {
-		seen := map[int]bool{}
-		for _, x := range p.Points {
-			if n := x%total + 1; !seen[n] {
-				seen[n] = true
-				pts = append(pts, n)
-			}
-		}
+		pts = stratified(dry.AckPath, p.Points, total)
 	}
 	for i, n := range pts {
 		variant := variants[i%len(variants)]
@@ -211,6 +252,9 @@ func powerLossCampaign(p Prog, all bool, variants []int) (crashStats, error) {
 			cs.midOp++
 		}
 		label := fmt.Sprintf("power loss at hook %d/%d (%s; image variant %d; acked %d, issued %d)", n, total, site, variant, acked, issued)
+		if os.Getenv("VERIF_KEEP") != "" {
+			exec.Command("cp", "-r", img, img+".orig").Run()
+		}
 		if _, err := verifyRecovered(p, img, acked, issued, label); err != nil {
 			return cs, err
 		}
@@ -221,6 +265,20 @@ func powerLossCampaign(p Prog, all bool, variants []int) (crashStats, error) {
 	return cs, nil
 }
 
+// c10StrictDir switches the campaign to the strict directory-entry model (variant 2). Used by the
+// known-finding witness and, with VERIF_STRICT set, as a development aid.
+var c10StrictDir = os.Getenv("VERIF_STRICT") != ""
+
+// TestKF_C10StrictDir replays a saved workload under the strict directory-entry model.
+func TestKF_C10StrictDir(t *testing.T) {
+	if !core.Replaying() {
+		t.Skip("witness runner: replay only")
+	}
+	c10StrictDir = true
+	defer func() { c10StrictDir = false }()
+	TestC10_PowerLoss(t)
+}
+
 func TestC10_PowerLoss(t *testing.T) {
 	all := core.Thorough()
 	core.Run(t, "C10", "powerloss",
@@ -229,7 +287,11 @@ func TestC10_PowerLoss(t *testing.T) {
 			return Gen(rt, GenCfg{MinOps: 4, MaxOps: 20, Weights: wCrash, AllowEnc: true, NPoints: 6, SyncWrites: true})
 		},
 		func(p Prog, rec *evid.Rec) (core.Result, error) {
-			cs, err := powerLossCampaign(p, all, []int{0, 0, 1})
+			variants := []int{0, 2, 1, 2}
+			if c10StrictDir {
+				variants = []int{2}
+			}
+			cs, err := powerLossCampaign(p, all, variants)
 			res := core.Result{NonTrivial: cs.midOp > 0}
 			rec.Add("hooks_in_dry_run", cs.points)
 			rec.Add("loss_runs", cs.runs)
